@@ -493,7 +493,7 @@ META = {
         "technique": "symbolic execution of membrane.py/innate.py decision logic with z3 match bits and clock; symbolic-string execution of the real matchers with a re._parser-driven symbolic regex engine",
     },
     "files": ["operon_ai/organelles/membrane.py", "operon_ai/surveillance/innate.py"],
-    "bounds": {"quick": "charset: the shipped CharacterSetValidator on one symbolic 7-bit character inside benign text; membrane histories k=3 over 8 operations and k=4 over {filter, learn, forget, relax} (3 built-in representatives + learned/imported/custom signatures, 2 contents, rate_limit none/1/2); innate histories k=2; embedding L<=2 (membrane) / L<=1 (innate) symbolic cells each side; 13 hostile inputs x 5 gate configurations",
+    "bounds": {"quick": "charset: the shipped CharacterSetValidator on one symbolic 7-bit character inside benign text; membrane histories k=3 over 9 operations and k=4 over {filter, learn, forget, relax} (3 built-in representatives + learned/imported/custom signatures, 2 contents, rate_limit none/1/2); innate histories k=2; embedding L<=2 (membrane) / L<=1 (innate) symbolic cells each side; 13 hostile inputs x 5 gate configurations",
                "thorough": "membrane k=3 over all 9 operations, k=4 over {filter, learn, import, tighten_threshold, add_signature}, k=5 over {filter, learn, forget, relax_threshold} (k=4 over all 9 exceeds 5 minutes on 16 cores: outside); innate k=3; embedding L<=3 / L<=2"},
     "outside": ["Unicode case folding beyond ASCII for symbolic text (non-ASCII custom signatures are covered by a finite table of ASCII-case variants only)", "inputs other than the hostile corpus for the C-level totality clause", "truncated-hash collisions in the replay memory", "sub-millisecond clock effects"],
     "float_argument": "time.time() is an exact rational of integer milliseconds; the 60 s window comparison is exact",
